@@ -15,6 +15,9 @@ RULE = (
     "(quick; 2..4 changes within 16 beats in thorough). Random (Hypothesis): 1..8 changes at cumulative positions "
     "with denominators 1..96, bpm from nice values and floats in [1,1000], any initial offset, through the three "
     "entry points reseat_bpm_changes_snap(list), from_bpm_changes_snap(offset, list, reseat=True), TimingMap.reseat(). "
+    "Sub-check 'sliver': positions a hair (1/10000 .. 1/100 beat) past a measure or beat line, both sides of the re-seater's "
+    "two extend thresholds (0.001 measure, 0.001 beat), through the two entry points that take positions. Sub-check 'tie': "
+    "two changes at one position (the later one wins). "
     "Oracle: own integration of input and output (each output point with its own metronome). "
     "Non-trivial = at least one change off a measure line."
 )
@@ -248,6 +251,6 @@ SUBS = [
 
 MANIFEST = dict(
     technique="exhaustive enumeration on the half-beat grid + Hypothesis-generated tempo lists; oracle = own integration of input and output timelines",
-    level_text="Exploration with an exhaustive core: every 2..3-change list on the half-beat grid within 12 beats (x27 bpm assignments; 7 668 lists) is checked in the quick tier, 2..4 changes within 16 beats in thorough, plus thousands of random lists on grids 1/1..1/96 through all three entry points. The five clauses of the statement are each a separate failure kind.",
-    level_note="trusted: 30 lines of Fraction integration in the module; domain: metronome 4, first change at (0,0); outputs that contain a non-4 metronome are not re-seated again (counted as a label)",
+    level_text="Exploration with an exhaustive core: every 2..3-change list on the half-beat grid within 12 beats (x27 bpm assignments; 7 668 lists) is checked in the quick tier, 2..4 changes within 16 beats in thorough, plus tens of thousands of random lists on grids 1/1..1/96 through all three entry points, lists with positions a hair past measure/beat lines (the re-seater's two 'extend' branches, both sides of both thresholds) and lists with two changes at one position. The five clauses of the statement are each a separate failure kind; one known finding (F26) is matched per failing case.",
+    level_note="trusted: 30 lines of Fraction integration in the module; domain: metronome 4, first change at (0,0); outputs that contain a non-4 metronome are not re-seated again (counted as a label); TimingMap.reseat() (which goes through ms and the snapper) is only fed positions on the snap grid",
 )
